@@ -8,7 +8,8 @@
       Terminal defaults (xterm, documented): autowrap ?7 and cursor ?25 are SET, every other
       private mode is reset, no cursor save is outstanding.
    2. What "cursor and scroll offset are in bounds" means for the list view.
-   3. Temp files: the ledger must be empty. *)
+   3. Temp files: the ledger must be empty.
+   4. The hand-over files of the --tmux popup proxy: none may be left. *)
 From Fzf Require Import Prelude.
 Open Scope Z_scope.
 
@@ -154,3 +155,14 @@ Definition view_in_boundsb (count maxLines cy offset : Z) : bool :=
 (* a ledger of the temporary files that exist; "clean" = empty *)
 Definition ledger := list nat.
 Definition ledger_clean (l : ledger) : bool := match l with [] => true | _ => false end.
+
+(* ------------------------------------------------------------------ 4. hand-over files of the --tmux popup proxy *)
+(* `fzf --tmux` inside tmux does not draw anything itself: the OUTER process re-launches fzf inside a tmux popup and
+   hands over through files it creates under $TMPDIR -- a fifo for the output, a fifo for the input (unless standard
+   input is a terminal), the shell script that the popup runs -- and the INNER fzf may create <script>.become to hand a
+   `become` command (and its environment) back.  "Clean" = none of the four exists any more at the moment the outer
+   process returns, or replaces itself with the become command (exec). *)
+Inductive pfile := PFOut | PFIn | PFScript | PFBecome.
+Definition pfile_code (f : pfile) : Z :=
+  match f with PFOut => 0 | PFIn => 1 | PFScript => 2 | PFBecome => 3 end.
+Definition proxy_clean (left : list pfile) : bool := match left with [] => true | _ => false end.
